@@ -13,6 +13,7 @@ import (
 	"math/rand"
 	"os"
 	"reflect"
+	"strings"
 	"sync"
 	"time"
 
@@ -923,5 +924,189 @@ func transformTrace(args []string) {
 		_ = enc.Encode(map[string]interface{}{"event": "ops", "ops": logged, "published": published, "reported": reported})
 	}
 
-	writeJSON(os.Stdout, map[string]interface{}{"lists": n})
+	transformKeysTrace(enc, r, newKeyPool(seed), n)
+
+	writeJSON(os.Stdout, map[string]interface{}{"lists": n, "key_lists": n})
+}
+
+// transformKeysTrace appends "keys" events to the transformer trace: random lists of validated keys.
+func transformKeysTrace(enc *json.Encoder, r *rand.Rand, pool *KeyPool, n int) {
+	types := []string{"Bls12381G2Key2020", "JsonWebKey2020", "EcdsaSecp256k1VerificationKey2019", "X25519KeyAgreementKey2019", "Ed25519VerificationKey2018", "Ed25519VerificationKey2020"}
+	purposes := []string{"authentication", "assertionMethod", "keyAgreement", "capabilityDelegation", "capabilityInvocation"}
+	const did = "did:sidetree:abc"
+
+	for h := 0; h < n; h++ {
+		base := r.Intn(2) == 0
+		nk := r.Intn(6)
+
+		var (
+			logged   = []map[string]interface{}{}
+			keysJSON []interface{}
+			given    = map[int]map[string]interface{}{}
+		)
+
+		for _, id := range r.Perm(7)[:nk] {
+			id++
+			ty := types[r.Intn(len(types))]
+			mat := "jwk"
+
+			switch ty {
+			case "X25519KeyAgreementKey2019":
+				mat = "b58"
+			case "Ed25519VerificationKey2018", "Ed25519VerificationKey2020":
+				mat = []string{"jwk", "b58"}[r.Intn(2)]
+			}
+
+			pp := []string{}
+			for _, p := range purposes {
+				permitted := ty != "X25519KeyAgreementKey2019"
+				if p == "keyAgreement" {
+					permitted = ty != "Ed25519VerificationKey2018" && ty != "Ed25519VerificationKey2020"
+				}
+
+				if permitted && r.Intn(3) == 0 {
+					pp = append(pp, p)
+				}
+			}
+
+			m := map[string]interface{}{"id": fmt.Sprintf("k%d", id), "type": ty}
+			if len(pp) > 0 {
+				l := []interface{}{}
+				for _, p := range pp {
+					l = append(l, p)
+				}
+
+				m["purposes"] = l
+			}
+
+			ed := trEdKey(pool, id)
+			ec := pool.Get("p256", fmt.Sprintf("tr%d", id))
+
+			switch {
+			case mat == "b58":
+				m["publicKeyBase58"] = refBase58([]byte(ed.Pub.(ed25519.PublicKey)))
+			case ty == "Ed25519VerificationKey2018" || ty == "Ed25519VerificationKey2020":
+				m["publicKeyJwk"] = map[string]interface{}{"kty": "OKP", "crv": "Ed25519", "x": ed.JWK.X}
+			default:
+				m["publicKeyJwk"] = map[string]interface{}{"kty": "EC", "crv": "P-256", "x": ec.JWK.X, "y": ec.JWK.Y}
+			}
+
+			given[id] = m
+			keysJSON = append(keysJSON, m)
+			logged = append(logged, map[string]interface{}{"id": id, "type": ty, "pp": pp, "mat": mat})
+		}
+
+		doc := document.Document{}
+		if len(keysJSON) > 0 {
+			doc["publicKey"] = keysJSON
+		}
+
+		doc = generic(doc).(map[string]interface{})
+
+		bad := ""
+		res, err := didtransformer.New(didtransformer.WithBase(base)).TransformDocument(&protocol.ResolutionModel{Doc: doc}, protocol.TransformationInfo{"id": did, "published": true})
+
+		ev := map[string]interface{}{"event": "keys", "keys": logged, "base": base, "vms": []interface{}{}, "rels": [][]int{{}, {}, {}, {}, {}}, "contexts": []string{}}
+
+		if err != nil {
+			bad = "transform error: " + err.Error()
+		} else {
+			out := generic(res.Document).(map[string]interface{})
+
+			idNum := func(s string) (int, bool, bool) {
+				relative := strings.HasPrefix(s, "#")
+				rest := strings.TrimPrefix(strings.TrimPrefix(s, did), "#")
+
+				if (!relative && !strings.HasPrefix(s, did+"#")) || len(rest) < 2 || rest[0] != 'k' {
+					return 0, relative, false
+				}
+
+				return atoi(rest[1:]), relative, true
+			}
+
+			var vms []interface{}
+
+			vl, _ := out["verificationMethod"].([]interface{})
+			for _, x := range vl {
+				vm, _ := x.(map[string]interface{})
+				ids, _ := vm["id"].(string)
+
+				n, relative, ok := idNum(ids)
+				if !ok {
+					bad = "verification method id " + ids
+					continue
+				}
+
+				g := given[n]
+				ed := trEdKey(pool, n)
+				edB58 := refBase58([]byte(ed.Pub.(ed25519.PublicKey)))
+				material := "unrecognised"
+
+				switch {
+				case vm["publicKeyJwk"] != nil && g != nil && reflect.DeepEqual(vm["publicKeyJwk"], g["publicKeyJwk"]) && vm["publicKeyBase58"] == nil && vm["publicKeyMultibase"] == nil:
+					material = "jwk-as-given"
+				case vm["publicKeyBase58"] != nil && g != nil && g["publicKeyBase58"] != nil && vm["publicKeyBase58"] == g["publicKeyBase58"] && vm["publicKeyJwk"] == nil:
+					material = "base58-as-given"
+				case vm["publicKeyBase58"] == edB58 && vm["publicKeyJwk"] == nil && vm["publicKeyMultibase"] == nil:
+					material = "base58-of-ed25519-key"
+				case vm["publicKeyMultibase"] == "z"+edB58 && vm["publicKeyJwk"] == nil && vm["publicKeyBase58"] == nil:
+					material = "multibase-base58btc-of-ed25519-key"
+				}
+
+				ty, _ := vm["type"].(string)
+				vms = append(vms, map[string]interface{}{"id": n, "relative": relative, "type": ty, "controller": vm["controller"] == did, "material": material})
+			}
+
+			if vms != nil {
+				ev["vms"] = vms
+			}
+
+			rels := [][]int{}
+
+			for _, p := range purposes {
+				l := []int{}
+
+				rl, _ := out[p].([]interface{})
+				for _, x := range rl {
+					s, _ := x.(string)
+
+					n, _, ok := idNum(s)
+					if !ok {
+						bad = "relationship entry " + fmt.Sprint(x)
+						continue
+					}
+
+					l = append(l, n)
+				}
+
+				rels = append(rels, l)
+			}
+
+			ev["rels"] = rels
+
+			ctxs := []string{}
+
+			cl, _ := out["@context"].([]interface{})
+			for _, x := range cl {
+				name := "unrecognised"
+
+				if m, isMap := x.(map[string]interface{}); isMap && len(m) == 1 && m["@base"] == did {
+					name = "@base"
+				}
+
+				for k, v := range typeContexts {
+					if x == v {
+						name = k
+					}
+				}
+
+				ctxs = append(ctxs, name)
+			}
+
+			ev["contexts"] = ctxs
+		}
+
+		ev["bad"] = bad
+		_ = enc.Encode(ev)
+	}
 }
